@@ -52,7 +52,11 @@ func c19placements(thorough bool) []c19placement {
 		{"emfile-covers-boundaries-1-2", []c19outage{{FromBoundary: 1, FromOffMs: -300, ToBoundary: 2, ToOffMs: 300, NoFds: true}}, 4},
 		{"emfile-then-directory-outage", []c19outage{{FromBoundary: 1, FromOffMs: -200, ToBoundary: 1, ToOffMs: 200, NoFds: true}, {FromBoundary: 3, FromOffMs: -200, ToBoundary: 3, ToOffMs: 200}}, 5},
 	}
+	// a long outage: creation fails at eleven (thorough: forty) consecutive boundaries; whatever the appender remembers about
+	// failed attempts, the calls keep returning, nothing is lost, and the first boundary after the restore gets its file
+	ps = append(ps, c19placement{"covers-eleven-boundaries", []c19outage{{FromBoundary: 1, FromOffMs: -300, ToBoundary: 11, ToOffMs: 300}}, 13})
 	if thorough {
+		ps = append(ps, c19placement{"covers-forty-boundaries", []c19outage{{FromBoundary: 1, FromOffMs: -300, ToBoundary: 40, ToOffMs: 300, AsFile: true}}, 42})
 		for _, off := range []int{-500, -100, -20, 20, 100, 500} {
 			ps = append(ps, c19placement{fmt.Sprintf("start%+d-end-after-2", off), []c19outage{{FromBoundary: 1, FromOffMs: off, ToBoundary: 2, ToOffMs: 150, AsFile: false}}, 4})
 			ps = append(ps, c19placement{fmt.Sprintf("start-before-1-end%+d", off), []c19outage{{FromBoundary: 1, FromOffMs: -150, ToBoundary: 2, ToOffMs: off, AsFile: off%40 == 0}}, 4})
@@ -713,7 +717,7 @@ func c19Worker(w *W) {
 func init() {
 	register(&Prop{
 		ID: "C19", Level: "fault_enumeration", MinDistinct: 10, Worker: c19Worker,
-		Rule: "faults: (a) the log directory of a running rolling appender (1 s interval) is renamed away and back - or replaced by a regular file - at 12 enumerated placements relative to real boundaries, plus 3 placements in which the process runs out of descriptors instead (EMFILE on create), (covering one, two or three boundaries, starting right after a successful rotation, restored 40 ms before / after a boundary, two separate outages, back-to-back outages, outage at the first boundary, outage inside one interval only; thorough adds 12 offset sweeps) x {1,2,4} writers issuing self-describing records with call stamps, the target written in three spellings of (fileDir, fileName) - plain, empty fileDir with the whole path in fileName, path split in the middle -, several writers held together (3 ms) at the interval check of each boundary; a call during which another writer completes 300 calls and a boundary passes counts as blocked; " +
+		Rule: "faults: (a) the log directory of a running rolling appender (1 s interval) is renamed away and back - or replaced by a regular file - at 12 enumerated placements relative to real boundaries, plus 3 placements in which the process runs out of descriptors instead (EMFILE on create), (covering one, two, three or eleven (thorough: forty) boundaries, starting right after a successful rotation, restored 40 ms before / after a boundary, two separate outages, back-to-back outages, outage at the first boundary, outage inside one interval only; thorough adds 12 offset sweeps) x {1,2,4} writers issuing self-describing records with call stamps, the target written in three spellings of (fileDir, fileName) - plain, empty fileDir with the whole path in fileName, path split in the middle -, several writers held together (3 ms) at the interval check of each boundary; a call during which another writer completes 300 calls and a boundary passes counts as blocked; " +
 			"oracle: no panic, every record present whole exactly once after the restore, every boundary lying outside all outages has a file created in its interval (creation retried), a sequential writer's post-boundary writes are not in an older file. (b) 14 sink-failure scenarios (one of them: the retention scan runs while the directory entries it lists are being removed): File/RollingFile appenders never started, after Stop, on /dev/full, with a missing directory at Start and at rotation, directory removed while open; console stream replaced by an erroring writer, a short writer, a closed file, a read-only file - Append and Write must return without panic or block. " +
 			"Non-trivial/distinct = distinct (placement, writers) runs + sink scenarios that held.",
 		Assumptions: []string{"the outage is produced by rename(2), so descriptors already open stay valid (that is what 'keeps writing to the file it already has' relies on)", "boundaries closer than 30 ms to an outage edge are not judged for retry"},
